@@ -124,7 +124,7 @@ Proof.
     destruct (has_suffix (i_dstate inst4) "_timeout" && _) eqn:E5; [discriminate|].
     match type of H with context [match ?s5 with ROk _ _ => _ | RErr _ => _ | RPanic => _ end] =>
       destruct s5 as [h5 inst5| |] eqn:E5'; try discriminate end.
-    rewrite Hreq in H.
+    rewrite Hreq in H. unfold pm_tail in H.
     destruct (sender_is_participant (i_payload inst5) (m_sender m) req) eqn:Esp; cbn [negb] in H; [|discriminate].
     exists (i_payload inst5). eapply sender_is_participant_spec; eassumption.
 Qed.
@@ -183,6 +183,41 @@ Definition no_state_writes (tr : list write) : Prop :=
 
 Definition needs_lazy_restart (s : string) : bool := has_suffix s "_error" || has_suffix s "_timeout".
 
+Lemma no_state_writes_app a b : no_state_writes a -> no_state_writes b -> no_state_writes (a ++ b).
+Proof. intros Ha Hb w Hin. apply in_app_or in Hin as [H|H]; [apply Ha; exact H|apply Hb; exact H]. Qed.
+
+Lemma pm_prop_err m req h i4 op h' :
+  no_state_writes (h_tr h) -> pm_prop m req h i4 op = RErr h' -> no_state_writes (h_tr h').
+Proof.
+  intros Hn. unfold pm_prop. destruct (String.eqb (m_event m) ev_sgn_start); [|discriminate].
+  destruct (m_tasks m) as [tasks|]; [|intros H; inversion H; subst; exact Hn].
+  destruct req; try (intros H; inversion H; subst; exact Hn).
+  unfold save_signatures. destruct (map _ tasks); [|discriminate].
+  intros H. inversion H; subst. cbn [emit h_tr]. apply no_state_writes_app; [exact Hn|].
+  intros w [<-|[]]. exact I.
+Qed.
+
+Lemma pm_tail_err now m req h inst h' :
+  no_state_writes (h_tr h) -> pm_tail now m req h inst = RErr h' -> no_state_writes (h_tr h').
+Proof.
+  intros Hn. unfold pm_tail.
+  destruct (negb (sender_is_participant _ _ _)); [intros H; inversion H; subst; exact Hn|].
+  destruct (do_live inst (m_event m) req) as [i1 r1 x1| |]; try (intros H; inversion H; subst; exact Hn); try discriminate.
+  cbv zeta.
+  destruct (if String.eqb r1 st_collected then _ else _) as [i2 r2 x2| |]; try (intros H; inversion H; subst; exact Hn); try discriminate.
+  destruct (if String.eqb r2 st_master_collected then _ else _) as [i3 r3 x3| |]; try (intros H; inversion H; subst; exact Hn); try discriminate.
+  destruct (String.eqb r3 st_partial_collected).
+  - destruct x3 as [[]|]; try (intros H; inversion H; subst; exact Hn).
+    destruct (reconstruct _ _ _ _ _ _); [|intros H; inversion H; subst; exact Hn].
+    assert (Hn' : no_state_writes (h_tr (emit h (WSend {| o_round := m_round m; o_event := ev_sig_reconstructed;
+                     o_sender := ns_user (h_st h); o_recipient := 0%N; o_sigs := l0; o_data := 0%N |})))).
+    { cbn [emit h_tr]. apply no_state_writes_app; [exact Hn|]. intros w [<-|[]]. exact I. }
+    destruct (do_fresh (dump_of i3) ev_sgn_restart _); try discriminate.
+    + apply pm_prop_err. exact Hn'.
+    + intros H. inversion H; subst. exact Hn'.
+  - apply pm_prop_err. exact Hn.
+Qed.
+
 (* a refused message changes nothing in the node's state store, unless the round was found in a
    cancelled signing state (the lazy restart is persisted before the message itself is judged:
    recorded finding) *)
@@ -217,26 +252,5 @@ Proof.
   { destruct (m_req m) as [[]| |]; try discriminate; inversion H; subst; exact Hnil. }
   rewrite Hn1 in H. cbn [andb] in H. cbv zeta in H. rewrite Hn2 in H. cbn [andb] in H.
   destruct (m_req m) as [req| |]; try (inversion H; subst; exact Hnil).
-  destruct (negb (sender_is_participant _ _ _)); [inversion H; subst; exact Hnil|].
-  destruct (do_live inst (m_event m) req) as [i1 r1 x1| |]; try (inversion H; subst; exact Hnil); try discriminate.
-  destruct (if String.eqb r1 st_collected then _ else _) as [i2 r2 x2| |]; try (inversion H; subst; exact Hnil); try discriminate.
-  destruct (if String.eqb r2 st_master_collected then _ else _) as [i3 r3 x3| |]; try (inversion H; subst; exact Hnil); try discriminate.
-  destruct (String.eqb r3 st_partial_collected).
-  - destruct x3 as [[]|]; try (inversion H; subst; exact Hnil).
-    destruct (reconstruct _ _ _ _ _ _); [|inversion H; subst; exact Hnil].
-    destruct (do_fresh (dump_of i3) ev_sgn_restart _); try discriminate.
-    + destruct (String.eqb (m_event m) ev_sgn_start).
-      * destruct (m_tasks m) as [tasks|].
-        -- destruct req; try (inversion H; subst; cbn; intros w [<-|[]]; exact I).
-           unfold save_signatures in H. destruct (map _ tasks); [|discriminate].
-           inversion H; subst. cbn. intros w [<-|[<-|[]]]; exact I.
-        -- inversion H; subst. cbn. intros w [<-|[]]. exact I.
-      * discriminate.
-    + inversion H; subst. cbn. intros w [<-|[]]. exact I.
-  - destruct (String.eqb (m_event m) ev_sgn_start).
-    + destruct (m_tasks m) as [tasks|]; [|inversion H; subst; exact Hnil].
-      destruct req; try (inversion H; subst; exact Hnil).
-      unfold save_signatures in H. destruct (map _ tasks); [|discriminate].
-      inversion H; subst. cbn. intros w [<-|[]]. exact I.
-    + discriminate.
+  eapply pm_tail_err; [exact Hnil|exact H].
 Qed.
